@@ -1,9 +1,212 @@
 // child module of src/unique_arc.rs: sees UniqueArc's private field.
-#![allow(dead_code, unused_imports, unused_unsafe, static_mut_refs)]
-use crate::arc::Arc;
+#![allow(dead_code, unused_imports, unused_unsafe, static_mut_refs, deprecated, unused_variables, unused_mut)]
+use crate::arc::{Arc, ArcInner};
 use crate::unique_arc::UniqueArc;
 use crate::vrt;
 
 pub(crate) fn inner_arc<T: ?Sized>(u: &UniqueArc<T>) -> &Arc<T> {
     &u.0
 }
+use crate::header::HeaderSlice;
+use crate::vrt::{any_count, base, cnt, cw, data, mk, rd, set_cnt, Tr, Tr16, Tr64, Tr8, Zd, S1, S16a16, S64a64, S9a8, Z};
+use core::alloc::Layout;
+use core::mem::MaybeUninit;
+
+// ------------------------------------------------------------------------------------------
+// C03: UniqueArc invariant (count == 1) — every producer establishes it (contracts), DerefMut needs it
+// ------------------------------------------------------------------------------------------
+
+// @h props=C03,C01,C06 fuc=UniqueArc::new,UniqueArc::deref_mut,UniqueArc::deref,UniqueArc::shareable
+gproof! { fn c03_unique_new_derefmut_shareable() {
+    let t = Tr8::new();
+    let id = t.id;
+    let mut u = UniqueArc::new(t);
+    let (b0, d0) = (base(&u.0), data(&u.0));
+    assert!(cnt(&u.0) == 1 && u.id == id);
+    let w: u8 = kani::any();
+    { let r: &mut Tr8 = &mut *u; assert!(vrt::addr(r as *const Tr8) == d0); r.v = w; }
+    assert!(u.v == w && vrt::addr(&*u as *const Tr8) == d0);
+    let a = u.shareable();
+    assert!(base(&a) == b0 && cnt(&a) == 1 && a.v == w && a.id == id);
+    assert!(vrt::drops() == 0 && vrt::clones() == 0 && vrt::ga(1) && vrt::gd(0));
+    drop(a);
+    assert!(vrt::drops() == 1 && vrt::gd(1));
+} }
+
+// @h props=C01,C05 fuc=UniqueArc::drop
+gproof! { fn c01_unique_drop__tr16() {
+    let u = UniqueArc::new(Tr16::new());
+    let id = u.id;
+    drop(u);
+    assert!(vrt::drops() == 1 && vrt::dropped(id) && vrt::ga(1) && vrt::gd(1) && vrt::glive(0));
+} }
+
+// ------------------------------------------------------------------------------------------
+// C15 / C05: uninitialised construction
+// ------------------------------------------------------------------------------------------
+macro_rules! h_new_uninit_layout {
+    ($name:ident, $T:ty) => {
+        gproof! { fn $name() {
+            let u: UniqueArc<MaybeUninit<$T>> = UniqueArc::new_uninit();
+            let (b0, d0) = (base(&u.0), data(&u.0));
+            let (size, align) = vrt::g_req(b0);
+            assert!(cnt(&u.0) == 1 && vrt::ga(1));
+            assert!(!vrt::g_on() || (align == core::mem::align_of::<ArcInner<$T>>() && size == core::mem::size_of::<ArcInner<$T>>()));
+            assert!(d0 % core::mem::align_of::<$T>() == 0 && d0 >= b0 + 8);
+            assert!(!vrt::g_on() || d0 + core::mem::size_of::<$T>() <= b0 + size);
+            drop(u);
+            assert!(vrt::gd(1) && vrt::glive(0) && vrt::drops() == 0);
+        } }
+    };
+}
+// @h props=C05,C15 fuc=UniqueArc::new_uninit,UniqueArc::drop
+h_new_uninit_layout!(c05_unique_new_uninit_layout__a64, S64a64);
+// @h props=C05,C15 fuc=UniqueArc::new_uninit,UniqueArc::drop
+h_new_uninit_layout!(c05_unique_new_uninit_layout__zst, Z);
+// @h props=C05,C15 fuc=UniqueArc::new_uninit,UniqueArc::drop
+h_new_uninit_layout!(c05_unique_new_uninit_layout__s1, S1);
+// @h props=C05,C15 tier=thorough fuc=UniqueArc::new_uninit,UniqueArc::drop
+h_new_uninit_layout!(c05_unique_new_uninit_layout__s9a8, S9a8);
+// @h props=C05,C15 tier=thorough fuc=UniqueArc::new_uninit,UniqueArc::drop
+h_new_uninit_layout!(c05_unique_new_uninit_layout__tr16, Tr16);
+
+// @h props=C15 fuc=UniqueArc::new_uninit,UniqueArc::write,UniqueArc::assume_init,UniqueArc::as_mut_ptr
+gproof! { fn c15_unique_uninit_sized_lifecycle() {
+    let mut u: UniqueArc<MaybeUninit<Tr8>> = UniqueArc::new_uninit();
+    let (b0, d0) = (base(&u.0), data(&u.0));
+    assert!(vrt::addr(u.as_mut_ptr() as *const MaybeUninit<Tr8>) == d0);
+    let written: bool = kani::any();
+    let mut id = 0;
+    if written {
+        let t = Tr8::new();
+        id = t.id;
+        let r = u.write(t);
+        assert!(vrt::addr(r as *const Tr8) == d0 && r.id == id);
+    }
+    let finish: bool = kani::any();
+    if written && finish {
+        let v = unsafe { UniqueArc::assume_init(u) };
+        // assume_init changes the type, not the allocation, contents or count
+        assert!(base(&v.0) == b0 && cnt(&v.0) == 1 && v.id == id && vrt::drops() == 0 && vrt::ga(1) && vrt::gd(0));
+        drop(v);
+        assert!(vrt::drops() == 1 && vrt::dropped(id) && vrt::gd(1));
+    } else {
+        // dropped before assume_init: no element destructor runs, written or not
+        drop(u);
+        assert!(vrt::drops() == 0 && vrt::gd(1) && vrt::glive(0));
+    }
+    kani::cover!(written && finish, "initialised path");
+    kani::cover!(written && !finish, "written then dropped early");
+    kani::cover!(!written, "never written");
+} }
+
+// @h props=C15 fuc=UniqueArc::write note="write does not run a destructor on the previous (uninitialised) content"
+gproof! { fn c15_unique_write_does_not_drop_old_slot() {
+    let mut u: UniqueArc<MaybeUninit<Tr8>> = UniqueArc::new_uninit();
+    let r = u.write(Tr8::new());
+    assert!(vrt::drops() == 0);
+    core::mem::forget(u);
+} }
+
+// @h props=C15,C05 bounded=len<=3 fuc=UniqueArc::from_header_and_uninit_slice,UniqueArc::assume_init_slice_with_header,UniqueArc::drop
+gproof! { #[kani::unwind(5)] fn c15_unique_uninit_slice_with_header_prefix() {
+    let len: usize = kani::any();
+    kani::assume(len <= 3);
+    let hd = Tr8::new();
+    let hid = hd.id;
+    let mut u: UniqueArc<HeaderSlice<Tr8, [MaybeUninit<Tr>]>> = UniqueArc::from_header_and_uninit_slice(hd, len);
+    let b0 = base(&u.0);
+    assert!(u.slice.len() == len && u.header.id == hid && cnt(&u.0) == 1 && vrt::drops() == 0);
+    let k: usize = kani::any();
+    kani::assume(k <= len);
+    let mut i = 0;
+    while i < k { u.slice[i].write(Tr::new()); i += 1; }
+    let finish: bool = kani::any();
+    if k == len && finish {
+        let a = unsafe { u.assume_init_slice_with_header() };
+        assert!(base(&a.0) == b0 && cnt(&a.0) == 1 && a.slice.len() == len && a.header.id == hid);
+        assert!(vrt::drops() == 0 && vrt::ga(1) && vrt::gd(0));
+        drop(a);
+        assert!(vrt::drops() == len + 1 && vrt::gd(1));
+    } else {
+        drop(u);
+        // header destroyed exactly once, no element destructor at all, no unissued id destroyed
+        assert!(vrt::drops() == 1 && vrt::dropped(hid) && vrt::drops_kind(0) == 0 && vrt::gd(1) && vrt::glive(0));
+    }
+    kani::cover!(k == len && finish && len == 3, "fully initialised, len 3");
+    kani::cover!(k < len, "partially written, dropped");
+} }
+
+// @h props=C15 tier=thorough bounded=len<=3,every-subset fuc=UniqueArc::from_header_and_uninit_slice,UniqueArc::drop
+gproof! { #[kani::unwind(5)] fn c15_unique_uninit_slice_with_header_subset() {
+    let len: usize = kani::any();
+    kani::assume(len <= 3);
+    let hd = Tr8::new();
+    let hid = hd.id;
+    let mut u: UniqueArc<HeaderSlice<Tr8, [MaybeUninit<Tr>]>> = UniqueArc::from_header_and_uninit_slice(hd, len);
+    let mask: u8 = kani::any();
+    let mut i = 0;
+    while i < len { if mask & (1 << i) != 0 { u.slice[i].write(Tr::new()); } i += 1; }
+    drop(u);
+    assert!(vrt::drops() == 1 && vrt::dropped(hid) && vrt::drops_kind(0) == 0 && vrt::gd(1) && vrt::glive(0));
+} }
+
+// @h props=C15,C05 bounded=len<=3 fuc=UniqueArc::new_uninit_slice,UniqueArc::assume_init_slice,Arc::assume_init
+gproof! { #[kani::unwind(5)] fn c15_unique_new_uninit_slice_lifecycle() {
+    let len: usize = kani::any();
+    kani::assume(len <= 3);
+    let mut u: UniqueArc<[MaybeUninit<Tr>]> = UniqueArc::new_uninit_slice(len);
+    let b0 = base(&u.0);
+    assert!(u.len() == len && cnt(&u.0) == 1);
+    let k: usize = kani::any();
+    kani::assume(k <= len);
+    let mut i = 0;
+    while i < k { u[i].write(Tr::new()); i += 1; }
+    let finish: bool = kani::any();
+    if k == len && finish {
+        let a = unsafe { UniqueArc::assume_init_slice(u) };
+        assert!(base(&a.0) == b0 && cnt(&a.0) == 1 && a.len() == len && vrt::drops() == 0 && vrt::gd(0));
+        drop(a);
+        assert!(vrt::drops() == len && vrt::gd(1));
+    } else {
+        drop(u);
+        assert!(vrt::drops() == 0 && vrt::gd(1) && vrt::glive(0));
+    }
+} }
+
+// @h props=C15,C01 bounded=len<=3 fuc=Arc::new_uninit_slice,Arc::assume_init,Arc::as_mut_slice
+gproof! { #[kani::unwind(5)] fn c15_arc_new_uninit_slice_assume_init() {
+    let len: usize = kani::any();
+    kani::assume(len <= 3);
+    let mut a: Arc<[MaybeUninit<Tr>]> = Arc::new_uninit_slice(len);
+    let b0 = base(&a);
+    let mut i = 0;
+    while i < len { a.as_mut_slice()[i].write(Tr::new()); i += 1; }
+    let n = any_count();
+    set_cnt(&a, n);
+    let b: Arc<[Tr]> = unsafe { a.assume_init() };
+    assert!(base(&b) == b0 && cnt(&b) == n && b.len() == len && vrt::drops() == 0 && vrt::ga(1) && vrt::gd(0));
+    core::mem::forget(b);
+} }
+
+// @h props=C15,C01 fuc=Arc::new_uninit,Arc::assume_init,Arc::as_mut_ptr
+gproof! { fn c15_arc_new_uninit_assume_init_sized() {
+    let mut a: Arc<MaybeUninit<Tr8>> = Arc::new_uninit();
+    let (b0, d0) = (base(&a), data(&a));
+    assert!(vrt::addr(a.as_mut_ptr() as *const MaybeUninit<Tr8>) == d0);
+    let t = Tr8::new();
+    let id = t.id;
+    unsafe { (a.as_mut_ptr() as *mut Tr8).write(t); }
+    let n = any_count();
+    set_cnt(&a, n);
+    let b: Arc<Tr8> = unsafe { a.assume_init() };
+    assert!(base(&b) == b0 && cnt(&b) == n && b.id == id && vrt::drops() == 0 && vrt::ga(1) && vrt::gd(0));
+    core::mem::forget(b);
+} }
+
+// @h props=C15 fuc=Arc::new_uninit,Arc::drop note="drop before assume_init runs no destructor"
+gproof! { fn c15_arc_new_uninit_dropped_early() {
+    let a: Arc<MaybeUninit<Tr8>> = Arc::new_uninit();
+    drop(a);
+    assert!(vrt::drops() == 0 && vrt::ga(1) && vrt::gd(1) && vrt::glive(0));
+} }
